@@ -39,6 +39,21 @@ def with_cfg(lines, method, flags, eintr=None):
     return out
 
 
+def method_oracle(r):
+    """a missing epoll_create1 / epoll_pwait2 / eventfd2 / eventfd does not change WHICH poll method is selected (each has an in-method
+    fallback): the method the run starts with is the first one the exclusion list allows"""
+    excl = next((l for l in r.lines if l.startswith("exclude ")), "exclude ")[8:].split()
+    cfg = next((l for l in r.lines if l.startswith("cfg ")), "cfg")
+    if "noepoll" in cfg.split():          # epoll itself unavailable: outside this rule (covered by the selection T-diff)
+        return None
+    want = next((m for m in ("epoll-timerfd", "epoll", "ppoll", "poll") if m not in excl), None)
+    got = next((l.split()[1].split("=")[1] for l in r.log.splitlines() if l.startswith("CFG method=")), None)
+    if want and got and got != want:
+        return ("C15:method-changed", f"poll method {got} selected instead of {want} although only an optional system call is missing ({cfg[4:]}): "
+                "the in-method fallback was not taken")
+    return None
+
+
 def fault_fired(log):
     return "WRET EINTR" in log or "WRET ENOSYS" in log or "CFG method=epoll-timerfd timerfd=1" not in log
 
@@ -130,7 +145,7 @@ def run(tier, seed, proof):
                     fired[l] += 1
             if fault_fired(r.log):
                 res.nontrivial.add(hashlib.sha1(r.log.encode()).hexdigest()[:16])
-            f = l1.failing(r, PROP, MONS, SANS)
+            f = l1.failing(r, PROP, MONS, SANS) or method_oracle(r)
             if f:
                 viol.append((r, f))
             elif l1.diverging(r):
